@@ -49,7 +49,7 @@ NPw0b == Pulse("NONBLOCKING PULSE 0 \"b\" w", FALSE, F0b, Def("w"))        \* 4 
 NP2z  == Pulse("NONBLOCKING PULSE 2 \"z\" flat(duration: 2, iq: 1)", FALSE, Fr("z", <<2>>), Tmpl(2, 0, 0))  \* undefined frame
 NPwc  == Pulse("NONBLOCKING PULSE 0 1 \"c\" w", FALSE, F01c, Def("w"))     \* no SAMPLE-RATE: unknown duration
 Nop   == Untimed("NOP")
-Rst   == Untimed("RESET 0")
+Rst   == Reset("RESET 0", <<0>>)
 Full  == Core \cup {P01c, C0b, R0a, NR1a, D01, D1b, D0ab, Fn0, Sf1a, Sw, Perf, NPw0a, NPw0b, NP2z, NPwc, Nop, Rst}
 
 \* calibrated source instructions: gate text -> body (instructions or other gates)
